@@ -16,7 +16,7 @@ import (
 func init() {
 	core.Register(&core.Check{
 		ID:     "C35",
-		Rule:   "cases: PRNG-generated valid multi-file schemas (base, accepted) and, for each file, (a) reflection-driven random edits of the FileDescriptorProto (any field of any nested descriptor message set to a random / boundary / type-confused value, elements duplicated, removed, reordered or swapped between lists, indices made negative or out of range, names emptied or made non-identifiers, options flipped) - NewFile must return without panicking under both AllowUnresolvable settings; (b) one targeted injection per class of definite schema error (44 injectors: duplicate names/numbers, invalid/overlapping ranges, reserved names/numbers, field in extension range, malformed map entries and groups, empty/non-consecutive oneofs, proto3-forbidden constructs, unresolvable references, packed/enum/presence/default combinations, bad indices and names) - NewFile must reject while the untouched base is accepted; distinct = distinct mutated protos; non-trivial = every case (all differ from the base)",
+		Rule:   "cases: PRNG-generated valid multi-file schemas (base, accepted) and, for each file, (a) reflection-driven random edits of the FileDescriptorProto (any field of any nested descriptor message set to a random / boundary / type-confused value, elements duplicated, removed, reordered or swapped between lists, indices made negative or out of range, names emptied or made non-identifiers, options flipped) - NewFile must return without panicking under both AllowUnresolvable settings; (b) one targeted injection per class of definite schema error (90 injectors, each clause for every kind of declaration it applies to - messages and enums, fields and extensions, map key and map value: duplicate names/numbers, invalid/overlapping ranges, reserved names/numbers, field in extension range, malformed map entries and groups, empty/non-consecutive oneofs, proto3-forbidden constructs, unresolvable references, packed/enum/presence/default combinations, bad indices and names) - NewFile must reject while the untouched base is accepted; distinct = distinct mutated protos; non-trivial = every case (all differ from the base)",
 		Assume: []string{"each injector's precondition scan guarantees that the injected construct is one of the property's definite errors (injectors that find no applicable site are skipped and counted)"},
 		Batches: func(tier string) []core.Batch {
 			var bs []core.Batch
@@ -235,6 +235,60 @@ func maxNum(m *descriptorpb.DescriptorProto) int32 {
 		}
 	}
 	return mx
+}
+
+func pickEnum(r *core.Rand, p *descriptorpb.FileDescriptorProto, pred func(*descriptorpb.EnumDescriptorProto) bool) *descriptorpb.EnumDescriptorProto {
+	var c []*descriptorpb.EnumDescriptorProto
+	for _, e := range allEnums(p) {
+		if pred(e) {
+			c = append(c, e)
+		}
+	}
+	if len(c) == 0 {
+		return nil
+	}
+	return c[r.Intn(len(c))]
+}
+
+func pickExt(r *core.Rand, p *descriptorpb.FileDescriptorProto, pred func(*descriptorpb.FieldDescriptorProto) bool) *descriptorpb.FieldDescriptorProto {
+	c := []*descriptorpb.FieldDescriptorProto{}
+	for _, x := range p.Extension {
+		if pred(x) {
+			c = append(c, x)
+		}
+	}
+	for _, m := range allMsgs(p) {
+		for _, x := range m.Extension {
+			if pred(x) {
+				c = append(c, x)
+			}
+		}
+	}
+	if len(c) == 0 {
+		return nil
+	}
+	return c[r.Intn(len(c))]
+}
+
+// fullNameOf returns the leading-dot full name of a message of the file.
+func fullNameOf(p *descriptorpb.FileDescriptorProto, target *descriptorpb.DescriptorProto) string {
+	var found string
+	var walk func(prefix string, ms []*descriptorpb.DescriptorProto)
+	walk = func(prefix string, ms []*descriptorpb.DescriptorProto) {
+		for _, m := range ms {
+			n := prefix + "." + m.GetName()
+			if m == target {
+				found = n
+			}
+			walk(n, m.NestedType)
+		}
+	}
+	pre := ""
+	if p.GetPackage() != "" {
+		pre = "." + p.GetPackage()
+	}
+	walk(pre, p.MessageType)
+	return found
 }
 
 // mapEntryInjector applies edit to one map-entry message of the file.
@@ -926,6 +980,271 @@ var c35Injectors = []injector{
 			return false
 		}
 		p.MessageType = append(p.MessageType, &descriptorpb.DescriptorProto{Name: proto.String("MsetZz"), Options: &descriptorpb.MessageOptions{MessageSetWireFormat: proto.Bool(true)}})
+		return true
+	}},
+	// symmetric variants of clauses covered above for one kind of declaration only
+	{"overlapping-enum-reserved-ranges", false, func(r *core.Rand, p *descriptorpb.FileDescriptorProto) bool {
+		e := pickEnum(r, p, func(e *descriptorpb.EnumDescriptorProto) bool { return len(e.ReservedRange) > 0 })
+		if e == nil {
+			return false
+		}
+		x := e.ReservedRange[r.Intn(len(e.ReservedRange))]
+		// inclusive ends: sharing one number is an overlap
+		nr := &descriptorpb.EnumDescriptorProto_EnumReservedRange{Start: proto.Int32(x.GetEnd()), End: proto.Int32(x.GetEnd() + 3)}
+		if r.Bool() {
+			nr = &descriptorpb.EnumDescriptorProto_EnumReservedRange{Start: proto.Int32(x.GetStart() - 3), End: proto.Int32(x.GetStart())}
+		}
+		if r.Bool() {
+			e.ReservedRange = append(e.ReservedRange, nr)
+		} else {
+			e.ReservedRange = append([]*descriptorpb.EnumDescriptorProto_EnumReservedRange{nr}, e.ReservedRange...)
+		}
+		return true
+	}},
+	{"extension-range-start-not-before-end", false, func(r *core.Rand, p *descriptorpb.FileDescriptorProto) bool {
+		if isP3(p) {
+			return false
+		}
+		m := pickMsg(r, plainMsgs(p), func(m *descriptorpb.DescriptorProto) bool {
+			return maxNum(m) < 400000000 && !m.GetOptions().GetMessageSetWireFormat()
+		})
+		if m == nil {
+			return false
+		}
+		n := maxNum(m) + 5
+		if n >= 19000 && n <= 20010 {
+			n = 20011
+		}
+		end := n - int32(r.Intn(3)) // end == start (empty) or before it
+		m.ExtensionRange = append(m.ExtensionRange, &descriptorpb.DescriptorProto_ExtensionRange{Start: proto.Int32(n), End: proto.Int32(end)})
+		return true
+	}},
+	{"extension-range-out-of-bounds", false, func(r *core.Rand, p *descriptorpb.FileDescriptorProto) bool {
+		if isP3(p) {
+			return false
+		}
+		m := pickMsg(r, plainMsgs(p), func(m *descriptorpb.DescriptorProto) bool {
+			return maxNum(m) < 400000000 && !m.GetOptions().GetMessageSetWireFormat()
+		})
+		if m == nil {
+			return false
+		}
+		x := &descriptorpb.DescriptorProto_ExtensionRange{Start: proto.Int32(maxNum(m) + 30000), End: proto.Int32(536870913)}
+		if r.Bool() && len(m.Field) == 0 && len(m.ExtensionRange) == 0 && len(m.ReservedRange) == 0 {
+			x = &descriptorpb.DescriptorProto_ExtensionRange{Start: proto.Int32(0), End: proto.Int32(10)}
+		}
+		m.ExtensionRange = append(m.ExtensionRange, x)
+		return true
+	}},
+	{"group-message-in-other-scope", false, func(r *core.Rand, p *descriptorpb.FileDescriptorProto) bool {
+		if !isP2(p) {
+			return false
+		}
+		m := pickMsg(r, plainMsgs(p), func(m *descriptorpb.DescriptorProto) bool {
+			return maxNum(m) < 400000000 && !m.GetOptions().GetMessageSetWireFormat()
+		})
+		if m == nil {
+			return false
+		}
+		// the group's message is declared at file scope, the field inside a message
+		p.MessageType = append(p.MessageType, &descriptorpb.DescriptorProto{Name: proto.String("Grpyy")})
+		f := newField("grpyy", maxNum(m)+1, descriptorpb.FieldDescriptorProto_TYPE_GROUP)
+		f.TypeName = proto.String("." + p.GetPackage() + ".Grpyy")
+		m.Field = append(m.Field, f)
+		return true
+	}},
+	{"group-message-name-lowercase", false, func(r *core.Rand, p *descriptorpb.FileDescriptorProto) bool {
+		if !isP2(p) {
+			return false
+		}
+		m := pickMsg(r, plainMsgs(p), func(m *descriptorpb.DescriptorProto) bool {
+			return maxNum(m) < 400000000 && !m.GetOptions().GetMessageSetWireFormat()
+		})
+		if m == nil {
+			return false
+		}
+		m.NestedType = append(m.NestedType, &descriptorpb.DescriptorProto{Name: proto.String("grpww")})
+		f := newField("grpww", maxNum(m)+1, descriptorpb.FieldDescriptorProto_TYPE_GROUP)
+		f.TypeName = proto.String(fullNameOf(p, m) + ".grpww")
+		m.Field = append(m.Field, f)
+		return true
+	}},
+	{"proto3-optional-repeated", false, func(r *core.Rand, p *descriptorpb.FileDescriptorProto) bool {
+		for _, m := range plainMsgs(p) {
+			if f := plainField(r, m, func(f *descriptorpb.FieldDescriptorProto) bool { return f.GetProto3Optional() }); f != nil {
+				f.Label = descriptorpb.FieldDescriptorProto_LABEL_REPEATED.Enum()
+				return true
+			}
+		}
+		return false
+	}},
+	{"proto3-optional-shared-oneof", false, func(r *core.Rand, p *descriptorpb.FileDescriptorProto) bool {
+		for _, m := range plainMsgs(p) {
+			f := plainField(r, m, func(f *descriptorpb.FieldDescriptorProto) bool { return f.GetProto3Optional() })
+			if f == nil || maxNum(m) > 400000000 {
+				continue
+			}
+			// a second field next to it joins its synthetic oneof
+			g := newField("joins_zz", maxNum(m)+1, descriptorpb.FieldDescriptorProto_TYPE_INT32)
+			g.OneofIndex = proto.Int32(f.GetOneofIndex())
+			g.Proto3Optional = proto.Bool(true)
+			var out []*descriptorpb.FieldDescriptorProto
+			for _, x := range m.Field {
+				out = append(out, x)
+				if x == f {
+					out = append(out, g)
+				}
+			}
+			m.Field = out
+			return true
+		}
+		return false
+	}},
+	{"synthetic-oneof-before-real-oneof", false, func(r *core.Rand, p *descriptorpb.FileDescriptorProto) bool {
+		for _, m := range plainMsgs(p) {
+			f := plainField(r, m, func(f *descriptorpb.FieldDescriptorProto) bool { return f.GetProto3Optional() })
+			if f == nil || maxNum(m) > 400000000 {
+				continue
+			}
+			// a real oneof declared after the synthetic ones
+			oi := int32(len(m.OneofDecl))
+			m.OneofDecl = append(m.OneofDecl, &descriptorpb.OneofDescriptorProto{Name: proto.String("late_real_zz")})
+			a, b := newField("late_a_zz", maxNum(m)+1, descriptorpb.FieldDescriptorProto_TYPE_INT32), newField("late_b_zz", maxNum(m)+2, descriptorpb.FieldDescriptorProto_TYPE_STRING)
+			a.OneofIndex, b.OneofIndex = proto.Int32(oi), proto.Int32(oi)
+			m.Field = append(m.Field, a, b)
+			return true
+		}
+		return false
+	}},
+	{"default-with-implicit-presence", false, func(r *core.Rand, p *descriptorpb.FileDescriptorProto) bool {
+		if !isP3(p) {
+			return false
+		}
+		for _, m := range plainMsgs(p) {
+			f := plainField(r, m, func(f *descriptorpb.FieldDescriptorProto) bool {
+				return f.GetLabel() == descriptorpb.FieldDescriptorProto_LABEL_OPTIONAL && !f.GetProto3Optional() && f.OneofIndex == nil
+			})
+			if f != nil && setScalarDefault(f) {
+				return true
+			}
+		}
+		return false
+	}},
+	{"default-on-repeated-field", false, func(r *core.Rand, p *descriptorpb.FileDescriptorProto) bool {
+		for _, m := range plainMsgs(p) {
+			f := plainField(r, m, func(f *descriptorpb.FieldDescriptorProto) bool {
+				return f.GetLabel() == descriptorpb.FieldDescriptorProto_LABEL_REPEATED && f.GetTypeName() == ""
+			})
+			if f != nil && setScalarDefault(f) {
+				return true
+			}
+		}
+		return false
+	}},
+	{"extension-packed-on-unpackable", false, func(r *core.Rand, p *descriptorpb.FileDescriptorProto) bool {
+		x := pickExt(r, p, func(x *descriptorpb.FieldDescriptorProto) bool {
+			return x.GetLabel() == descriptorpb.FieldDescriptorProto_LABEL_REPEATED && (x.GetType() == descriptorpb.FieldDescriptorProto_TYPE_STRING || x.GetType() == descriptorpb.FieldDescriptorProto_TYPE_BYTES || x.GetType() == descriptorpb.FieldDescriptorProto_TYPE_MESSAGE)
+		})
+		if x == nil {
+			x = pickExt(r, p, func(x *descriptorpb.FieldDescriptorProto) bool {
+				return x.GetLabel() == descriptorpb.FieldDescriptorProto_LABEL_OPTIONAL && x.GetType() == descriptorpb.FieldDescriptorProto_TYPE_INT32
+			})
+		}
+		if x == nil {
+			return false
+		}
+		if x.Options == nil {
+			x.Options = &descriptorpb.FieldOptions{}
+		}
+		x.Options.Packed = proto.Bool(true)
+		return true
+	}},
+	{"extension-number-invalid", false, func(r *core.Rand, p *descriptorpb.FileDescriptorProto) bool {
+		x := pickExt(r, p, func(x *descriptorpb.FieldDescriptorProto) bool { return true })
+		if x == nil {
+			return false
+		}
+		x.Number = proto.Int32([]int32{0, -5, 536870912, 19500}[r.Intn(4)])
+		return true
+	}},
+	{"duplicate-enum-name", false, func(r *core.Rand, p *descriptorpb.FileDescriptorProto) bool {
+		if len(p.EnumType) == 0 {
+			return false
+		}
+		e := proto.Clone(p.EnumType[r.Intn(len(p.EnumType))]).(*descriptorpb.EnumDescriptorProto)
+		for _, v := range e.Value {
+			v.Name = proto.String(v.GetName() + "_DUPZZ")
+		}
+		p.EnumType = append(p.EnumType, e)
+		return true
+	}},
+	{"duplicate-service-or-method-name", false, func(r *core.Rand, p *descriptorpb.FileDescriptorProto) bool {
+		if len(p.Service) == 0 {
+			return false
+		}
+		sv := p.Service[r.Intn(len(p.Service))]
+		if len(sv.Method) > 0 && r.Bool() {
+			sv.Method = append(sv.Method, proto.Clone(sv.Method[r.Intn(len(sv.Method))]).(*descriptorpb.MethodDescriptorProto))
+			return true
+		}
+		p.Service = append(p.Service, proto.Clone(sv).(*descriptorpb.ServiceDescriptorProto))
+		return true
+	}},
+	{"oneof-name-clash", false, func(r *core.Rand, p *descriptorpb.FileDescriptorProto) bool {
+		m := pickMsg(r, plainMsgs(p), func(m *descriptorpb.DescriptorProto) bool {
+			if len(m.OneofDecl) == 0 || len(m.Field) == 0 {
+				return false
+			}
+			for _, f := range m.Field {
+				if f.GetProto3Optional() {
+					return false
+				}
+			}
+			return true
+		})
+		if m == nil {
+			return false
+		}
+		// the oneof takes the name of a field of the same message (one scope)
+		o := m.OneofDecl[r.Intn(len(m.OneofDecl))]
+		o.Name = proto.String(m.Field[r.Intn(len(m.Field))].GetName())
+		return true
+	}},
+	{"duplicate-extension-name", false, func(r *core.Rand, p *descriptorpb.FileDescriptorProto) bool {
+		if len(p.Extension) == 0 {
+			return false
+		}
+		x := proto.Clone(p.Extension[r.Intn(len(p.Extension))]).(*descriptorpb.FieldDescriptorProto)
+		p.Extension = append(p.Extension, x)
+		return true
+	}},
+	{"enum-value-without-number", false, func(r *core.Rand, p *descriptorpb.FileDescriptorProto) bool {
+		e := pickEnum(r, p, func(e *descriptorpb.EnumDescriptorProto) bool { return len(e.Value) > 1 })
+		if e == nil {
+			return false
+		}
+		e.Value[1+r.Intn(len(e.Value)-1)].Number = nil
+		return true
+	}},
+	{"duplicate-reserved-name", false, func(r *core.Rand, p *descriptorpb.FileDescriptorProto) bool {
+		if r.Bool() {
+			if e := pickEnum(r, p, func(e *descriptorpb.EnumDescriptorProto) bool { return len(e.ReservedName) > 0 }); e != nil {
+				e.ReservedName = append(e.ReservedName, e.ReservedName[r.Intn(len(e.ReservedName))])
+				return true
+			}
+		}
+		m := pickMsg(r, plainMsgs(p), func(m *descriptorpb.DescriptorProto) bool { return len(m.ReservedName) > 0 })
+		if m == nil {
+			return false
+		}
+		m.ReservedName = append(m.ReservedName, m.ReservedName[r.Intn(len(m.ReservedName))])
+		return true
+	}},
+	{"duplicate-public-dependency", false, func(r *core.Rand, p *descriptorpb.FileDescriptorProto) bool {
+		if len(p.PublicDependency) == 0 {
+			return false
+		}
+		p.PublicDependency = append(p.PublicDependency, p.PublicDependency[0])
 		return true
 	}},
 	{"closed-enum-in-proto3-field", false, func(r *core.Rand, p *descriptorpb.FileDescriptorProto) bool {
